@@ -2,6 +2,7 @@ package props
 
 import (
 	"fmt"
+	"go/types"
 	"sort"
 	"strings"
 
@@ -597,4 +598,254 @@ func boolKeys(m map[string]bool) map[string]bool {
 		o[k] = true
 	}
 	return o
+}
+
+// subChainOnCheckStateRule: ValidateSubChain judges a fork on the speculative state derived for
+// the fork point; the node's own state (chain.appState) is used only to derive that state.
+// Anything else read from chain.appState there (validator cache, identity registry, balances)
+// is the view at the node's own head, not the fork's.
+func subChainOnCheckStateRule(p *engine.Prog, r *engine.Report, rule string) {
+	f := mustFunc(p, r, "blockchain", "Blockchain.ValidateSubChain")
+	if f == nil {
+		return
+	}
+	r.Fn(engine.FuncName(f))
+	n := 0
+	ok, where := true, ""
+	var visit func(fn *ssa.Function)
+	visit = func(fn *ssa.Function) {
+		for _, b := range fn.Blocks {
+			for _, ins := range b.Instrs {
+				u, isLoad := ins.(*ssa.UnOp)
+				if !isLoad {
+					continue
+				}
+				o, fld, isF := engine.FieldOf(u.X)
+				if !isF || o != "Blockchain" || fld != "appState" {
+					continue
+				}
+				n++
+				if u.Referrers() == nil {
+					continue
+				}
+				for _, ref := range *u.Referrers() {
+					c, isCall := ref.(ssa.CallInstruction)
+					if isCall && engine.HasRecv(c) && engine.CallArgs(c)[0] == ssa.Value(u) && engine.CallNameIs(c, "ForCheckWithOverwrite", "ForCheck") {
+						continue
+					}
+					if _, isDbg := ref.(*ssa.DebugRef); isDbg {
+						continue
+					}
+					ok, where = false, p.InstrPos(ref)
+				}
+			}
+		}
+		for _, a := range fn.AnonFuncs {
+			visit(a)
+		}
+	}
+	visit(f)
+	r.Check(ok && n > 0, rule, "ValidateSubChain|the node's own state is used only to derive the check state", p.Pos(f.Pos()), "chain.appState flows only into ForCheckWithOverwrite", "chain.appState is used at "+where+" while a fork is judged: the fork's blocks and certificates are checked against the validator set / state at the node's own head instead of the fork's own state — a genuinely certified fork is refused and one signed by identities unknown to the fork is adopted")
+}
+
+// timestampBoundaryRule: the builder stamps a block with max(prev + MinBlockDelay, now); the
+// earliest honest distance to the parent is therefore exactly MinBlockDelay, and the validator's
+// "too close" test must let equality pass (reject only strictly below the same constant).
+func timestampBoundaryRule(p *engine.Prog, r *engine.Report, rule string) {
+	v := mustFunc(p, r, "blockchain", "validateBlockTimestamp")
+	b := mustFunc(p, r, "blockchain", "Blockchain.ProposeBlock")
+	if v == nil || b == nil {
+		return
+	}
+	min := constInt(p, "blockchain", "MinBlockDelay")
+	// builder side: some Add(MinBlockDelay) feeds the header time
+	builderAdds := false
+	for _, c := range engine.Calls(b) {
+		if engine.CallIs(c, "time.Time.Add") {
+			if k, ok := engine.ConstInt(engine.CallArgs(c)[1]); ok && k == min {
+				builderAdds = true
+			}
+		}
+	}
+	if !builderAdds || min == 0 {
+		r.Und(rule, "ProposeBlock|earliest timestamp = parent + MinBlockDelay", p.Pos(b.Pos()), "builder side not recognised")
+		return
+	}
+	n := 0
+	for _, g := range checksOf(v) {
+		cond, neg := stripNot(g.If.Cond)
+		bo, ok := cond.(*ssa.BinOp)
+		if !ok {
+			continue
+		}
+		kx, okx := engine.ConstInt(bo.X)
+		ky, oky := engine.ConstInt(bo.Y)
+		var op string
+		switch {
+		case oky && ky == min:
+			op = bo.Op.String()
+		case okx && kx == min:
+			op = map[string]string{"<": ">", ">": "<", "<=": ">=", ">=": "<="}[bo.Op.String()]
+		default:
+			continue
+		}
+		// normalise to "distance OP MinBlockDelay is true on the REJECT edge"
+		rejectOnTrue := !g.PassTrue
+		if neg {
+			rejectOnTrue = !rejectOnTrue
+		}
+		if !rejectOnTrue {
+			op = map[string]string{"<": ">=", ">=": "<", "<=": ">", ">": "<="}[op]
+		}
+		n++
+		r.Check(op == "<", rule, "validateBlockTimestamp|a block exactly MinBlockDelay after its parent is accepted", p.InstrPos(g.If), "rejects only distance < MinBlockDelay (the builder's earliest stamp is parent + MinBlockDelay)", "the validator rejects when distance "+op+" MinBlockDelay, but ProposeBlock stamps max(parent + MinBlockDelay, now): an honest block proposed within the delay of its parent (fast round, proposer clock behind) carries exactly parent + MinBlockDelay and is refused by every validator")
+	}
+	if n == 0 {
+		r.Und(rule, "validateBlockTimestamp|MinBlockDelay comparison", p.Pos(v.Pos()), "no rejecting comparison against MinBlockDelay found")
+	}
+}
+
+// chargedCostRule: what applyTxOnState charges (and, for ActivationTx, what it leaves behind) is the
+// actual cost at the block's fee rate — getTxCost is fee.CalculateCost(size, feePerGas, tx) — never
+// the declared maximum, which only bounds admission.
+func chargedCostRule(p *engine.Prog, r *engine.Report, rule string) {
+	f := mustFunc(p, r, "blockchain", "Blockchain.getTxCost")
+	if f == nil {
+		return
+	}
+	r.Fn(engine.FuncName(f))
+	ok, why := true, ""
+	n := 0
+	for _, ret := range engine.Returns(f) {
+		n++
+		c, isCall := engine.Unwrap(ret.Results[0]).(*ssa.Call)
+		if !isCall || !engine.CallIs(c, "blockchain/fee.CalculateCost") {
+			ok, why = false, "result is not fee.CalculateCost(...)"
+			continue
+		}
+		args := engine.CallArgs(c)
+		if len(args) < 3 || len(f.Params) < 3 || engine.Origin(args[1]) != ssa.Value(f.Params[1]) || engine.Origin(args[2]) != ssa.Value(f.Params[2]) {
+			ok, why = false, "not computed from the fee rate and transaction it was given"
+		}
+	}
+	r.Check(ok && n > 0, rule, "getTxCost|the charged cost is fee.CalculateCost(size, feePerGas, tx)", p.Pos(f.Pos()), "actual cost at the block's fee rate", "getTxCost: "+why+": ActivationTx moves balance - cost to the recipient — with the declared maximum (not validated against the balance for a zero-fee type) the difference is negative and the recipient is debited in favour of the signer")
+}
+
+// stakePartsRule: locked stake is part of replenished stake, which is part of the stake: every
+// addition to an inner part comes with the same addition (same address, same amount) to the
+// enclosing parts in the same block of code. The release computations subtract the parts from one
+// another; a part that outgrows its container releases coins that do not exist.
+func stakePartsRule(p *engine.Prog, r *engine.Report, rule string) {
+	encl := map[string][]string{"AddLockedStake": {"AddReplenishedStake", "AddStake"}, "AddReplenishedStake": {"AddStake"}}
+	n := 0
+	for _, pkg := range []string{"blockchain", "core/ceremony", "vm/env", "vm/wasm"} {
+		for _, f := range funcsOfPkg(p, pkg) {
+			if f.Blocks == nil || isTestish(p.Pos(f.Pos())) {
+				continue
+			}
+			for _, c := range engine.Calls(f) {
+				var inner string
+				for k := range encl {
+					if engine.CallIs(c, "core/state.StateDB."+k) {
+						inner = k
+					}
+				}
+				if inner == "" {
+					continue
+				}
+				n++
+				args := engine.CallArgs(c)
+				for _, outer := range encl[inner] {
+					found := false
+					for _, c2 := range engine.Calls(f) {
+						if !engine.CallIs(c2, "core/state.StateDB."+outer) {
+							continue
+						}
+						a2 := engine.CallArgs(c2)
+						same := len(a2) == len(args) && renderVal(a2[1], 0) == renderVal(args[1], 0) && renderVal(a2[2], 0) == renderVal(args[2], 0)
+						if !same {
+							continue
+						}
+						// on every path: the outer call's block dominates the inner call's block
+						if c2.Block() == c.Block() || c2.Block().Dominates(c.Block()) {
+							found = true
+						}
+					}
+					r.Check(found, rule, uniq(r, engine.RelName(f)+"|"+inner+" comes with "+outer+" of the same address and amount"), p.InstrPos(c), "paired on every path", inner+" at this site has no "+outer+"(same address, same amount) before it on every path: the inner stake part can exceed the part that contains it, and the release computations (stake - replenished, stake - locked) pay out coins that were never there")
+				}
+			}
+		}
+	}
+	if n == 0 {
+		r.Und(rule, "stake parts", "", "no AddLockedStake/AddReplenishedStake call found")
+	}
+}
+
+// predefinedImportRule: a chain started from a predefined state restores every exported field of
+// every message it imports (account epoch next to the nonce, stake parts, flags …): a dropped field
+// restarts the chain with a state that differs from the one that was dumped.
+func predefinedImportRule(p *engine.Prog, r *engine.Report, rule string, onlyMsgs map[string]bool) {
+	var fns []*ssa.Function
+	for _, f := range funcsOfPkg(p, "core/state") {
+		if f.Blocks != nil && strings.HasPrefix(f.Name(), "SetPredefined") && !isTestish(p.Pos(f.Pos())) {
+			fns = append(fns, f)
+			for _, a := range f.AnonFuncs {
+				fns = append(fns, a)
+			}
+		}
+	}
+	if len(fns) == 0 {
+		r.Und(rule, "SetPredefined*", "", "no importer found")
+		return
+	}
+	read := map[string]map[string]bool{} // message type -> fields read
+	msgs := map[string]*types.Struct{}
+	for _, f := range fns {
+		r.Fn(engine.FuncName(f))
+		for _, b := range f.Blocks {
+			for _, ins := range b.Instrs {
+				var x ssa.Value
+				var idx int
+				switch t := ins.(type) {
+				case *ssa.FieldAddr:
+					x, idx = t.X, t.Field
+				case *ssa.Field:
+					x, idx = t.X, t.Field
+				default:
+					continue
+				}
+				n := engine.NamedOf(x.Type())
+				if n == nil || !strings.HasPrefix(n.Obj().Name(), "ProtoPredefinedState") {
+					continue
+				}
+				st, _ := n.Underlying().(*types.Struct)
+				if st == nil {
+					continue
+				}
+				msgs[n.Obj().Name()] = st
+				if read[n.Obj().Name()] == nil {
+					read[n.Obj().Name()] = map[string]bool{}
+				}
+				read[n.Obj().Name()][st.Field(idx).Name()] = true
+			}
+		}
+	}
+	var mnames []string
+	for m := range msgs {
+		mnames = append(mnames, m)
+	}
+	sort.Strings(mnames)
+	for _, m := range mnames {
+		if onlyMsgs != nil && !onlyMsgs[m] {
+			continue
+		}
+		st := msgs[m]
+		for i := 0; i < st.NumFields(); i++ {
+			fld := st.Field(i)
+			if !fld.Exported() {
+				continue
+			}
+			r.Check(read[m][fld.Name()], rule, "SetPredefined*|"+m+"."+fld.Name()+" is restored", p.Pos(fns[0].Pos()), "read by an importer", "the predefined-state importers never read "+m+"."+fld.Name()+": a chain started from a dumped state lacks it (e.g. account epoch: every stored nonce then counts as stale and transactions of the current epoch can be applied again)")
+		}
+	}
 }
